@@ -214,12 +214,53 @@ func fan(c *core.Ctx, fn, dm *core.Fn) {
 			post = ah
 		}
 		c.Check("R4.token", "decode/await-each", await.Pos(), !c07.ReachBlock(gs, cfgq.Point{B: ab}, false, isRecv, post), "every iteration of the await loop must receive one token")
-		direct = func(n ast.Node) bool { s, ok := n.(*ast.SendStmt); return ok && c07.Obj(info, s.Chan) == group }
+		// a call of a function / method of this package that sends one token on every path: the channel is the
+		// same object (a field of the state-owning type, a package variable) or the parameter bound to it
+		signals := func(call *ast.CallExpr) bool {
+			h := c.FnOf(c07.CalleeF(info, call))
+			if h == nil || h.Decl.Body == nil || h.Pkg != fn.Pkg {
+				return false
+			}
+			hinfo := h.Pkg.TypesInfo
+			chans := map[types.Object]bool{group: true}
+			i := 0
+			for _, f := range h.Decl.Type.Params.List {
+				for _, nm := range f.Names {
+					if i < len(call.Args) && c07.Obj(info, call.Args[i]) == group {
+						chans[hinfo.Defs[nm]] = true
+					}
+					i++
+				}
+			}
+			hg := cfgq.Of(c.Program, h)
+			okAll, _ := c07.MustPass(hg, hg.Entry(), false, func(n ast.Node) bool {
+				s, ok := n.(*ast.SendStmt)
+				return ok && chans[c07.Obj(hinfo, s.Chan)]
+			})
+			return okAll
+		}
+		direct = func(n ast.Node) bool {
+			if s, ok := n.(*ast.SendStmt); ok && c07.Obj(info, s.Chan) == group {
+				return true
+			}
+			if _, isD := n.(*ast.DeferStmt); isD {
+				return false
+			}
+			for _, call := range cfgq.ExecCalls(n) {
+				if signals(call) {
+					return true
+				}
+			}
+			return false
+		}
 		contains = func(root ast.Node) bool {
 			found := false
 			core.InspectAll(root, func(m ast.Node) bool {
-				if s, ok := m.(*ast.SendStmt); ok && c07.Obj(info, s.Chan) == group {
-					found = true
+				switch t := m.(type) {
+				case *ast.SendStmt:
+					found = found || c07.Obj(info, t.Chan) == group
+				case *ast.CallExpr:
+					found = found || signals(t)
 				}
 				return !found
 			})
